@@ -5,10 +5,12 @@ import (
 	"compress/flate"
 	"encoding/binary"
 	"errors"
+	"fmt"
 	"hash/crc32"
 	"io"
 	"os"
 	"strconv"
+	"unsafe"
 
 	"github.com/golang/snappy"
 	"github.com/philpearl/avro"
@@ -44,6 +46,10 @@ type recWriter struct {
 	partial []byte
 	failed  bool
 }
+
+// Flush: some destinations (bufio, gzip) have one; this one always succeeds - an error of an earlier Write must not
+// be replaced by its result
+func (w *recWriter) Flush() error { return nil }
 
 func (w *recWriter) Write(p []byte) (int, error) {
 	w.calls++
@@ -170,7 +176,66 @@ var (
 	freeOut sx
 )
 
+// encScenario: uses of FileWriter that the Encoder never makes; judged here with the library's own reader
+func encScenario(name, codec string) sx {
+	switch name {
+	case "two-destinations":
+		// one FileWriter, two destinations: each gets a header, then each gets a block
+		sch, err := avro.SchemaForType(recB{})
+		if err != nil {
+			return T("violated", hs("schema: "+err.Error()))
+		}
+		js, err := sch.Marshal()
+		if err != nil {
+			return T("violated", hs("marshal: "+err.Error()))
+		}
+		fw, err := avro.NewFileWriter(js, avro.Compression(codec))
+		if err != nil {
+			return T("violated", hs("NewFileWriter: "+err.Error()))
+		}
+		var f1, f2 bytes.Buffer
+		if err := fw.WriteHeader(&f1); err != nil {
+			return T("violated", hs(err.Error()))
+		}
+		f2.Write(fw.AppendHeader(nil))
+		rec := func(b string) []byte {
+			w := avro.NewWriteBuf(nil)
+			w.Varint(int64(len(b)))
+			w.Write([]byte(b))
+			return append([]byte(nil), w.Bytes()...)
+		}
+		for i, step := range []struct {
+			w *bytes.Buffer
+			b string
+		}{{&f1, "first-1"}, {&f2, "second-1"}, {&f1, "first-2"}, {&f2, "second-2"}} {
+			if err := fw.WriteBlock(step.w, 1, rec(step.b)); err != nil {
+				return T("violated", hs(fmt.Sprintf("WriteBlock %d: %v", i, err)))
+			}
+		}
+		for _, f := range []struct {
+			name string
+			data []byte
+			want []string
+		}{{"first", f1.Bytes(), []string{"first-1", "first-2"}}, {"second", f2.Bytes(), []string{"second-1", "second-2"}}} {
+			var got []string
+			err := avro.ReadFile(bytes.NewReader(f.data), recB{}, func(val unsafe.Pointer, rb *avro.ResourceBank) error {
+				got = append(got, string((*recB)(val).B))
+				rb.Close()
+				return nil
+			})
+			if err != nil || fmt.Sprint(got) != fmt.Sprint(f.want) {
+				return T("violated", hs(fmt.Sprintf("the %s of two files written through one FileWriter reads back as %v, %v (written %v)", f.name, got, err, f.want)))
+			}
+		}
+		return T("ok")
+	}
+	panic("harness: unknown enc scenario " + name)
+}
+
 func execENC(op string, a []sx) sx {
+	if op == "enc-scenario" {
+		return encScenario(a[0].atom, a[1].atom)
+	}
 	codec, bs, rectype := a[0].atom, int(a[1].int()), a[2].atom
 	k, acc := int(a[3].int()), int(a[4].int())
 	ops := a[5].list
@@ -280,5 +345,42 @@ func genENC(c *ctx, faults bool) {
 				c.emit(T("enc", A(codec), I(int64(bs)), A(rectype), I(int64(k)), I(int64(acc)), ops))
 			}
 		}
+	}
+	if !faults {
+		for _, codec := range codecs {
+			c.emit(T("enc-scenario", A("two-destinations"), A(codec)))
+		}
+	}
+	emitAll := func(codec string, bs int, ops sx) {
+		c.emit(T("enc", A(codec), I(int64(bs)), A("b"), I(0), I(0), ops))
+		if !faults {
+			return
+		}
+		free := &recWriter{}
+		runEnc(free, codec, bs, "b", ops.list)
+		for k := 1; k <= len(free.writes)+1; k++ {
+			for _, acc := range []int{0, 1 << 30, 70000} {
+				c.emit(T("enc", A(codec), I(int64(bs)), A("b"), I(int64(k)), I(int64(acc)), ops))
+			}
+		}
+	}
+	// record counts per block around the one-/two-byte boundary of the count's varint (63 | 64, 127 | 128)
+	for i, n := range []int{63, 64, 65, 100, 127, 128, 129} {
+		ops := L()
+		for k := 0; k < n; k++ {
+			ops.list = append(ops.list, T("e", H([]byte{byte(k)})))
+		}
+		ops.list = append(ops.list, T("f"))
+		if !faults || i%3 == 0 {
+			emitAll(codecs[i%3], 1<<14, ops)
+		}
+	}
+	// one block above 64 KiB (and above 128 KiB): writers that split large payloads, readers that chunk
+	for i, n := range []int{70000, 140000} {
+		p := make([]byte, n)
+		for j := range p {
+			p[j] = byte(c.rng.Intn(251))
+		}
+		emitAll(codecs[(i+1)%3], 64, L(T("e", H(p)), T("e", H([]byte{1, 2, 3})), T("f")))
 	}
 }
